@@ -16,7 +16,7 @@ import (
 	"verif/harness/sm"
 )
 
-const ruleC09 = "model-based state machine (writes incl. deletes of absent ids and failed operations) whose read steps run, on the same state and the same query object, FindAll, Count, Exists, FindFirst, ForEach (complete and with a consumer returning false at call k) and compare them with each other: Count = len, Exists iff len > 0 (limit != 0), FindFirst = the first element of FindAll (the same document, also among ties), ForEach = exactly the FindAll sequence and exactly k consumer calls with no store read after the stop; FindById iff live (model). The query object (collection, criteria structure and identity, skip, limit, sort options) is digested before and after all calls and after calling every builder method on it, and the raw store dump before and after the reads must be identical. An evaluation is one derived-call comparison; non-trivial when the query has criteria or a window and a non-empty result, or an early stop with 0 < k < len; distinct = distinct (query, collection contents)."
+const ruleC09 = "model-based state machine (writes incl. deletes of absent ids and failed operations) whose read steps run, on the same state and the same query object, FindAll, Count, Exists, FindFirst, ForEach (complete and with a consumer returning false at call k) and compare them with each other: Count = len, Exists iff len > 0 (limit != 0), FindFirst = the first element of FindAll (the same document, also among ties), ForEach = exactly the FindAll sequence and exactly k consumer calls with no store read after the stop; FindById iff live (model). The query object (collection, criteria structure and identity, skip, limit, sort options) is digested before and after all calls and after calling every builder method on it, and the raw store dump before and after the reads must be identical. An evaluation is one derived-call comparison; non-trivial when the query has criteria or a window and a non-empty result, or an early stop with 0 < k < len; distinct = distinct (query, collection contents). A second part races reads with index creation/drop and writes and requires every read to be the answer of some state between its call and its return (linearizability)."
 
 func c09Profile() *sm.Profile {
 	return &sm.Profile{
@@ -200,6 +200,21 @@ func c09Session(backend string) (*sm.Session, error) {
 func init() { registerSM("C09", "c09", c09Session) }
 
 func TestC09(t *testing.T) {
+	t.Run("histories", testC09Histories)
+	t.Run("concurrent", func(t *testing.T) {
+		// reads racing with index creation/drop and writes: every FindAll/Count/FindById must
+		// still be the answer of some state between its call and its return
+		col := collector("C09", ruleC09)
+		check(t, "C09", cases(60, 1500), 0, func(rt *rapid.T) {
+			h, verdict := concurrentCase(rt, "C09", []string{"find", "find", "find", "count", "count", "findbyid", "createindex", "dropindex", "dropindex", "insert", "deletebyid"})
+			col.Case(overlapWrite(h), hashOf(h.Setup, len(h.Ops), h.Ops[0].Op), func() interface{} {
+				return map[string]interface{}{"mode": "concurrent", "backend": h.Backend, "operations": len(h.Ops), "verdict": verdict}
+			}, "concurrent", "verdict:"+verdict)
+		})
+	})
+}
+
+func testC09Histories(t *testing.T) {
 	(&smCheck{property: "C09", kind: "c09", rule: ruleC09, quick: 2500, thorough: 60000, stepsQ: 20, stepsT: 30,
 		backends: []string{run.Bbolt, run.Bbolt, run.BadgerMem},
 		profile:  func(rt *rapid.T) *sm.Profile { return c09Profile() },
